@@ -77,6 +77,7 @@ def build(reg):
             return o
 
         IDX0 = z3.Function('IDX0', sort_of(BYTES), z3.IntSort())      # ghost witness: where a retained id sits in the queue
+        WF_CLAUSES = ['len-nonneg', 'limit-positive', 'queue-bounded', 'queue-empty-if-unlimited', 'retained-in-queue', 'queue-in-retained', 'queue-distinct']
         def wf(s, idx=IDX0):
             """class invariant of RetainExpression; retained == ids of the queue is stated with a ghost index witness"""
             q = s.self.queue; lim = s.self.limit
@@ -142,7 +143,8 @@ def build(reg):
                 return z3.And(n.self.limit.z == o.self.limit.z, n.self.expr.z == o.self.expr.z, n.self.sortBy.z == o.self.sortBy.z)
             return [('queue-is-insert-then-truncate', inserted_then_cut), ('not-selected-unchanged', unchanged_if_not_selected),
                     ('unlimited-retains-all-selected', unlimited_adds),
-                    ('queue-sorted', sorted_kept), ('frame', frame), ('class-invariant', inv_kept)]
+                    ('queue-sorted', sorted_kept), ('frame', frame)] + \
+                   [('class-invariant:' + nm, (lambda o, n, r, nm=nm: inv_kept(o, n, r, nm))) for nm in WF_CLAUSES]      # one small query per clause
 
         def loop1(cur, old, asc=asc):
             # while i < len(queue): find insertion point
@@ -169,15 +171,15 @@ def build(reg):
             ]
         # class invariant re-established, with the explicit new ghost witness:
         # the new id sits at the insertion point p, ids at/after p moved one slot to the right
-        def inv_kept(o, n, r):
+        def inv_kept(o, n, r, only):
             p = n.i.z if n.has('i') else None
             sel_lim = z3.And(selected(o), limited(o))
+            pick = lambda cl: z3.And(*[c for nm, c in cl if nm == only])
             if p is None:       # paths that return before the queue is touched
-                return z3.And(z3.Not(sel_lim), *[c for _, c in wf(n, IDX0)])
+                return z3.And(z3.Not(sel_lim), pick(wf(n, IDX0))) if only == WF_CLAUSES[0] else pick(wf(n, IDX0))
             def idx1(b): return z3.If(b == o.bid.z, p, z3.If(IDX0(b) >= p, IDX0(b) + 1, IDX0(b)))
-            sel_lim = z3.And(selected(o), limited(o))
-            return z3.And(z3.Implies(sel_lim, z3.And(*[c for _, c in wf(n, idx1)])),
-                          z3.Implies(z3.Not(sel_lim), z3.And(*[c for _, c in wf(n, IDX0)])))
+            return z3.And(z3.Implies(sel_lim, pick(wf(n, idx1))),
+                          z3.Implies(z3.Not(sel_lim), pick(wf(n, IDX0))))
         u = Unit(F, 'RetainExpression.evaluate', {'self': self_factory, 'bid': BYTES, 'data': DATA}, 'C19',
                  name='RetainExpression.evaluate[%s]' % ('ASC' if asc else 'DESC'),
                  requires=requires, ensures=post(),
